@@ -8,7 +8,7 @@ import "strings"
 // part is a smaller query with the same hypotheses.  Sound in both directions,
 // so a `sat` part refutes the whole goal.
 
-const maxGoalParts = 48
+const maxGoalParts = 512
 
 // sexprArgs splits "(op a b c)" into op and its top-level arguments.
 func sexprArgs(s string) (string, []string, bool) {
